@@ -15,7 +15,7 @@ def _close(ctx, mon, got, want, scale, detail):
 
 def _setup(rng, Lmax=6, maxdim=1024):
     L = int(rng.choice([1, 2, 3, 4, 5, 6][:Lmax]))
-    src = str(rng.choice(['random', 'random', 'model', 'hermitian']))
+    src = str(rng.choice(['random', 'random', 'model', 'hermitian', 'structured-blocks']))
     if src == 'model' and L >= 2:
         name = str(rng.choice(['ising', 'xxz', 'xxz1', 'bose3', 'fermi']))
         d = gen.MODEL_D[name]
@@ -29,7 +29,15 @@ def _setup(rng, Lmax=6, maxdim=1024):
         while d ** L > maxdim:
             L -= 1
         qd = _qd(rng, d, str(rng.choice(['zero', 'unsorted', 'pairs', 'huge'])))
-        if src == 'hermitian':
+        if src == 'structured-blocks':
+            # hand-written automaton style: zero blocks, identities, c*I + g*X, projectors, shifts ... (no quantum numbers)
+            d = max(d, 2)
+            while d ** L > maxdim:
+                L -= 1
+            qd = np.zeros(d, dtype=int)
+            H = gen.structured_block_mpo(rng, d, L, Dmax=3, cplx=bool(rng.random() < 0.7))
+            herm = False
+        elif src == 'hermitian':
             H = gen.rand_hermitian_mpo(rng, qd, L, Dmax=2)
             herm = True
         else:
@@ -260,7 +268,11 @@ def steps_case(ctx, idx, rng):
     Da, Da2, Db, Db2, Dw, Dw2 = (int(x) for x in rng.integers(1, 5, size=6))
     c = lambda *s: gen.entries(rng, s, 'complex')
     A = c(d, Da2, Da); B = c(d, Db2, Db); W = c(d, d, Dw2, Dw)
-    ctx.case(('steps', f'd{d}'), sample={'A': A.shape, 'B': B.shape, 'W': W.shape})
+    structured = bool(idx % 2) and d >= 2
+    if structured:
+        # operator tensor made of structured blocks (zero blocks, c*I + g*X, projectors, shifts, ...) instead of dense random entries
+        W = gen.structured_operator_tensor(rng, d, Dw2, Dw, cplx=bool(idx % 4 == 1))
+    ctx.case(('steps', f'd{d}', 'structured-operator-blocks' if structured else 'dense-operator'), sample={'A': A.shape, 'B': B.shape, 'W': W.shape})
     R = c(Da, Db)
     detail = {'A': A, 'B': B, 'W': W}
     with monitor.write_protected(A, B, W, R):
